@@ -271,8 +271,8 @@ func crashCase(c *Ctx, r *RNG, id, base, mix string) {
 	cfg.idxInt = 4096
 	cfg.bodyInC = 4096
 	cfg.bodyMax = []int64{256, 512}[r.Intn(2)]
-	cfg.listKey = 256
 	bufio := []int{256, 300, 512, 1000, 4096}[r.Intn(5)]
+	cfg.listKey = []uint32{1, 2, 256}[r.Fork(99).Intn(3)] // small: listings show node summaries, not items
 	s := &seqStore{cfg: cfg}
 	curStore = s
 	cs := &crashRec{home: home, base: base, r: r.Fork(77), max: 48}
@@ -445,6 +445,35 @@ func crashCase(c *Ctx, r *RNG, id, base, mix string) {
 				res = fmt.Sprintf("VAL %d %s", item.Flag, valSummary(item.Body))
 			}
 			c.line("cget %d %s => %s", sn.n, hx([]byte(k)), res)
+		}
+		if mix == "c06" {
+			// C08 after an unclean stop: the listings of the recovered tree (root and the first digit of every key hash)
+			probes := map[string]bool{"": true}
+			for _, k := range keys {
+				probes[fmt.Sprintf("%016x", store.VerifKeyHash([]byte(k)))[:1]] = true
+			}
+			var ps []string
+			for p := range probes {
+				ps = append(ps, p)
+			}
+			sort.Strings(ps)
+			for _, p := range ps {
+				var body string
+				item, lerr := s2.cl.Get("@" + p)
+				switch {
+				case lerr != nil:
+					body = "ERR"
+				case item == nil:
+					body = "NIL"
+				default:
+					body = "[" + strings.ReplaceAll(strings.TrimSuffix(string(item.Body), "\n"), "\n", "|") + "]"
+				}
+				pp := p
+				if pp == "" {
+					pp = "-"
+				}
+				c.line("clist %d %s => %s", sn.n, pp, body)
+			}
 		}
 		guard(func() { s2.hs.Close() })
 		s2.quiesce()
